@@ -50,7 +50,8 @@ def items():
         Fn(TRV, "strip_leading_trivia", mode="stub"),
         Fn(TU, "take_trailing_comments", contract="ensures node.same_sem_t(&r.0), r.0.not_open(),"),
         Fn(TU, "take_leading_comments", contract="ensures node.same_sem(&r.0),"),
-        Fn(TU, "contains_comments", mode="stub", sig_edits=[VN]),
+        Fn(TU, "contains_comments", mode="stub", sig_edits=[VN], contract="ensures node.line_open() ==> r,",
+           note="line facts (class A): a node one of whose tokens carries a line comment contains comments"),
         Item(GEN, "enum", "EndTokenType"),
         Fn(GEN, "format_contained_span", mode="stub"),
         Fn(GEN, "format_token_reference", mode="stub", contract="ensures leaf_safe(Expression::Number(r)), leaf_safe(Expression::String(r)), leaf_safe(Expression::Symbol(r)), tok_of(r) == tok_of(*token_reference), token_type_of(tr_token(*token_reference)) is Symbol ==> tr_token(r) == tr_token(*token_reference), token_type_of(tr_token(r)) is Symbol ==> token_type_of(tr_token(*token_reference)) is Symbol, is_bracket_tok(r) == is_bracket_tok(*token_reference),"),
@@ -68,6 +69,9 @@ def items():
         Fn(EX, "format_interpolated_string", mode="stub", contract="ensures interp_id(r) == interp_id(*interpolated_string), leaf_safe(Expression::InterpolatedString(r)),"),
         Fn("src/formatters/luau.rs", "format_type_assertion", mode="stub", attrs='#[cfg(feature = "luau")]\n',
            contract="ensures type_assertion_id(r) == type_assertion_id(*type_assertion), ta_safe(r),"),
+        Fn("src/formatters/luau.rs", "format_type_assertion_on_new_line", mode="stub", attrs='#[cfg(feature = "luau")]\n',
+           contract="ensures type_assertion_id(r) == type_assertion_id(*type_assertion), ta_safe(r), ta_nl(r),",
+           note="line facts (class C): `::` is formatted with [newline, indent] appended to its leading trivia"),
         Fn(EX, "format_binop", mode="stub", contract="ensures binop_id(r) == binop_id(*binop), binop_open(r) ==> binop_open(*binop),",
            note="line facts (class C): the formatted operator carries the trailing comments of the source operator and no others"),
         Fn(EX, "format_unop", mode="stub", contract="ensures unop_id(r) == unop_id(*unop),"),
@@ -94,6 +98,13 @@ def items():
 """),
         Fn(TU, "prepend_newline_indent", mode="stub", contract="ensures node.same_sem(&r), r.on_new_line(), node.rest_same(&r),",
            note="iterator chain building [newline, indent, comment]* newline indent; only trivia changes (UpdateLeadingTrivia interface)"),
+        Fn(EX, "parenthesise", contract="""
+    requires esafe(expression),
+    ensures
+        r is Parentheses, //# C05.parenthesise_shape
+        skel(r) == Skel::Paren(Box::new(skel(expression))),
+        esafe(r), //# C01.parenthesise_line_safe
+"""),
         Fn(EX, "move_operand_below_comment", contract="""
     ensures skel(r) == skel(expression), begins_with_bracket_string(r) == begins_with_bracket_string(expression), //# C02.unary_operand_same
         esafe(r) == esafe(expression), unop_open(*unop) ==> enl(r), //# C01.unary_operand_below_comment
@@ -150,9 +161,12 @@ impl ToRange for Expression { #[verifier::external_body] fn to_range(&self) -> (
 """, module="formatters::expression"),
         Fn(EX, "find", impl_of="LeftmostRangeHang", mode="stub"),
         Fn(EX, "required_shape", impl_of="LeftmostRangeHang", mode="stub"),
-        Fn(EX, "hang_binop", mode="stub", contract="ensures binop_id(r) == binop_id(binop),"),
+        Fn(EX, "hang_binop", mode="stub", contract="ensures binop_id(r) == binop_id(binop), binop_nl(r), !binop_open(r),",
+           note="line facts (class C): hang_binop replaces the trailing trivia by one space and ends the leading trivia with [newline, indent]"),
         Fn(EX, "is_hang_binop_over_width", mode="stub"),
-        Fn(EX, "binop_expression_contains_comments", mode="stub"),
+        Fn(EX, "binop_expression_contains_comments", mode="stub", contract="""
+    ensures (match *expression { Expression::BinaryOperator { binop, .. } => binop == *top_binop && binop_open(binop), _ => false }) ==> r,""",
+           note="line facts (class C): for the operator itself it tests contains_comments(binop) first"),
         Fn(EX, "binop_precedence_level", mode="stub"),
         Fn(EX, "did_hang_expression", mode="stub"),
         Item(EX, "enum", "ExpressionSide", keep_derives=()),
@@ -236,6 +250,8 @@ LABELS = {
     "C02.unary_operand_same": dict(props=["C02", "C05"], text="move_operand_below_comment (operand of a unary operator that is followed by a line comment goes to a new line): only trivia changes"),
     "C01.single_line.line_safe": dict(props=["C01", "C02", "C03"], text="format_expression_internal: no token of the formatted expression is printed behind a line comment on the same line (operators, operands, parentheses, type assertions; leaves assumed)"),
     "C01.format_expression.line_safe": dict(props=["C01", "C02", "C03"], text="format_expression: same"),
+    "C01.parenthesise_line_safe": dict(props=["C01", "C02", "C03"], text="parenthesise (kept parentheses): the expression starts a new line when `(` is followed by a line comment, and `)` starts a new line when the expression ends with one"),
+    "C05.parenthesise_shape": dict(props=["C05", "C02"], text="parenthesise returns the expression inside one pair of parentheses"),
     "C01.unary_operand_below_comment": dict(props=["C01"], text="move_operand_below_comment: when the operator is followed by a line comment the operand starts a new line; nothing else changes"),
     "C01.double_minus_parens_line_safe": dict(props=["C01"], text="keep_double_minus_apart: the parentheses it adds do not end up behind a line comment (the operand's trailing comments are moved behind `)`)"),
     "C01.bracket_string_visible_internal": dict(props=["C01"], text="same, for format_expression_internal (induction)"),
